@@ -314,7 +314,7 @@ impl Context {
             h.cur == old(h).cur && h.tasks == old(h).tasks && h.queue == old(h).queue && h.links_rev == old(h).links_rev && task.id@ == h.cur
                 && forall|t: Tid| t != old(h).cur ==> hooks_of(*h, t) == hooks_of(*old(h), t),
 //@@ end
-//@@ extract file=acts/src/scheduler/context.rs in="impl Context" item="fn redo_task" name=Context::redo_task props=C02,C05
+//@@ extract file=acts/src/scheduler/context.rs in="impl Context" item="fn redo_task" name=Context::redo_task props=C02,C05,C03
 //@@ rw R7 `Some ( prev_task )` => `Some(prev_task)`
 //@@ spec
         requires old(h).wf(), wf_task(*old(h), **task), task.node.s_kind() != NodeKind::Workflow
@@ -363,7 +363,7 @@ impl Context {
             //# act-aborted
             h.has(act_tid) && h.st(act_tid) is Aborted,
 //@@ end
-//@@ extract file=acts/src/scheduler/context.rs in="impl Context" item="fn undo_task" name=Context::undo_task props=C02,C05
+//@@ extract file=acts/src/scheduler/context.rs in="impl Context" item="fn undo_task" name=Context::undo_task props=C02,C05,C03
 //@@ rw R7 `$V:chain . extend_from_slice ( & $E )` => `vec_extend(&mut $V, $E)`
 //@@ proof at=start
         proof { reveal(Heap::wf); }
@@ -457,7 +457,7 @@ pub open spec fn final_witness(a: Heap, b: Heap, n: Tid, act: Act, hook: bool) -
 }
 // The Cancel arm of Task::update, lifted into a function of its own (R9b, `fallsthrough`: the arms of that match fall through to the common tail of
 // Task::update); Task::update calls it where the arm stood (R8).
-//@@ extract file=acts/src/scheduler/process/task.rs in="impl Task" item="fn update" arm="EventAction::Cancel" fallsthrough name=Task::update::cancel props=C02,C05 sig="pub fn arm_cancel(task0: &Arc<Task>, ctx: &Context) -> Result<()>"
+//@@ extract file=acts/src/scheduler/process/task.rs in="impl Task" item="fn update" arm="EventAction::Cancel" fallsthrough name=Task::update::cancel props=C02,C05,C03 sig="pub fn arm_cancel(task0: &Arc<Task>, ctx: &Context) -> Result<()>"
 //@@ opt attr="#[verifier::exec_allows_no_decreases_clause]"
 //@@ rw R7 `task . follows ( & | t | t . is_kind ( NodeKind :: Step ) && t . is_acts ( ) , & mut path_tasks , )` => `task.follows_step_acts(&mut path_tasks)`
 //@@ spec
